@@ -811,7 +811,19 @@ def generate(repo, tmpl_path, outdir, probe=None, drop_hints=()):
                 notes.extend(fnotes)
             else:
                 kind, name = words[3], words[4]
-                lines = expand_item(srcs[alias], kind, name, sections, notes)
+                if kind == 'consts':
+                    # `//@@ item <alias> consts *`: every top-level `const NAME: T = ..;` of the file, whatever it is called -- so that a constant a
+                    # change to the source ADDS (and uses in a function under contract) reaches the verifier instead of ending as a front-end error
+                    sr = srcs[alias]
+                    names = []
+                    for m_ in find_code(sr.text, sr.cls, r'(pub(\([a-z]+\))?\s+)?const\s+([A-Z][A-Z0-9_]*)\s*:'):
+                        if sr.alive(m_.start()) and sr._depth(0, m_.start()) == 0 and m_.group(3) not in names:
+                            names.append(m_.group(3))
+                    lines = []
+                    for nm in names:
+                        lines.extend(expand_item(sr, 'const', nm, [], notes))
+                else:
+                    lines = expand_item(srcs[alias], kind, name, sections, notes)
                 for (t, o) in lines:
                     out.append((t, o))
         elif st.startswith('//@@'):
